@@ -68,7 +68,7 @@ func gen(rng *rand.Rand, w *vh.World, repo string, n int) tcase {
 		return tc // plain push (valid or with missing references, depending on the repository state)
 	}
 	// a mutation on top
-	switch k := rng.Intn(15); k {
+	switch k := rng.Intn(16); k {
 	case 0: // truncated body, addressed by tag or by the digest of the truncated bytes
 		cut := 1 + rng.Intn(len(mm.Raw)-1)
 		tc.body = mm.Raw[:cut]
@@ -158,6 +158,14 @@ func gen(rng *rand.Rand, w *vh.World, repo string, n int) tcase {
 			ghost["mediaType"] = vh.MTImage
 			obj["manifests"] = append(obj["manifests"].([]any), ghost)
 		} else {
+			if rng.Intn(2) == 0 {
+				// a layer that also names download locations (the foreign-layer form): the statement makes no exception
+				// for it, a layer that is referenced exists in the repository
+				ghost["urls"] = []any{"https://example.com/layer.tar"}
+				if rng.Intn(2) == 0 {
+					ghost["mediaType"] = []string{"application/vnd.docker.image.rootfs.foreign.diff.tar.gzip", "application/vnd.oci.image.layer.nondistributable.v1.tar+gzip"}[rng.Intn(2)]
+				}
+			}
 			obj["layers"] = append(obj["layers"].([]any), ghost)
 		}
 		b, _ := json.Marshal(obj)
@@ -207,6 +215,18 @@ func gen(rng *rand.Rand, w *vh.World, repo string, n int) tcase {
 		b, _ := json.Marshal(obj)
 		tc.body = b
 		tc.class, tc.must = "malformed-reference-digest", -1
+		if tc.tag == "" {
+			tc.ref = vh.DigestOf("sha256", b)
+		}
+		tc.query = ""
+	case 15: // the body declares a media type that is no supported image or index type, and no Content-Type header says otherwise
+		var obj map[string]any
+		_ = json.Unmarshal(mm.Raw, &obj)
+		obj["mediaType"] = []string{"application/vnd.oci.artifact.manifest.v1+json", "application/vnd.docker.distribution.manifest.v1+json", "text/plain", vh.MTConfig, "application/json", vh.MTLayer}[rng.Intn(6)]
+		b, _ := json.Marshal(obj)
+		tc.body = b
+		tc.ct = ""
+		tc.class, tc.must = "unsupported-media-type-in-body-without-content-type", -1
 		if tc.tag == "" {
 			tc.ref = vh.DigestOf("sha256", b)
 		}
@@ -543,5 +563,5 @@ func main() {
 	r.Require("accepted", 300)
 	r.Require("refused", 300)
 	r.RequireDistinct("classes", 40)
-	r.Finish("histories of 25-45 manifest pushes: valid manifests and 14 mutation classes (truncated, references with a malformed digest, not JSON, unsupported / parameterised / absent / inconsistent Content-Type, shape inconsistent with type, hostile reference, digest mismatch in path or parameter, extra or missing references, references only in another repository) into empty, populated and referrer-heavy repositories, both stores; complete snapshot compared after every push; plus directed trials in which the children of an index exist only as blobs uploaded through the blob API (recorded finding K12); a case is one push, distinct = (class, repository state, by tag/digest)", "pushes", "classes")
+	r.Finish("histories of 25-45 manifest pushes: valid manifests and 15 mutation classes (truncated, a missing layer that names download urls, an unsupported media type in the body with no Content-Type, references with a malformed digest, not JSON, unsupported / parameterised / absent / inconsistent Content-Type, shape inconsistent with type, hostile reference, digest mismatch in path or parameter, extra or missing references, references only in another repository) into empty, populated and referrer-heavy repositories, both stores; complete snapshot compared after every push; plus directed trials in which the children of an index exist only as blobs uploaded through the blob API (recorded finding K12); a case is one push, distinct = (class, repository state, by tag/digest)", "pushes", "classes")
 }
